@@ -95,7 +95,8 @@ def loaders_stream(ctx, count, do_model=True):
     for name in STRATS:
         for kind, datas in FILES.items():
             for data in datas:
-                res = loaders.real_load(kind, data)
+                # the object has loaded another file (with markers, strings, tags) before: nothing of it may survive
+                res = loaders.real_load(kind, data, preload=b"x = 'old';\n// DDBEGIN\n<a old=1>'o'\n// DDEND\ny = \"old\";\n")
                 f = strat.fields(res[1])
                 if strat.content(f) != data:
                     ctx.fail("original-altered", f"{kind}: the loaded testcase writes {strat.content(f)!r} for the file {data!r}, so every "
@@ -107,7 +108,49 @@ def loaders_stream(ctx, count, do_model=True):
                         one(ctx, name, cfg, kind, f, lambda k, c, seq=seq: seq[k % 251], do_model)
 
 
+def torn_writes(ctx):
+    """an interrupt (Ctrl-C) arrives while the candidate is half written: once `run()` has returned control the file is
+    again the original with reducible atoms deleted (never the torn candidate), for the three strategies"""
+    from lithium import testcases as T
+
+    from .. import driver, scripts
+    data = b"// prefix\n// DDBEGIN\nl1\n{\nl2\n}\nl3\n(\nl4\n)\n// DDEND\n// suffix\n"
+    real_dump = T.Testcase.dump
+    for name in STRATS:
+        for nth in (1, 2, 3, 5):
+            for verdicts in ("aaaaaaaaaaaa", "arararararar", "arrrrrrrrrrr"):
+                s = driver.Session(None, kind="line", from_file=data)
+                count = [0]
+
+                def dump(self, path=None, s=s, count=count, nth=nth):
+                    target = str(path) if path is not None else self.filename
+                    if str(target) == str(s.path):
+                        count[0] += 1
+                        if count[0] == nth:
+                            whole = self.before + b"".join(self.parts) + self.after
+                            with open(target, "wb") as fh:
+                                fh.write(whole[: max(1, len(whole) // 2)])
+                            raise KeyboardInterrupt()
+                    return real_dump(self, path)
+
+                T.Testcase.dump = dump
+                try:
+                    s.test.decider = lambda k, disk, v=verdicts: "a" if v[k % len(v)] == "a" else "r"
+                    o = s.run(scripts.make_real_strategy(name, {}), "a")
+                finally:
+                    T.Testcase.dump = real_dump
+                    s.close()
+                ctx.evaluations += 1
+                ctx.bump("torn-write")
+                case = dict(strategy=name, interrupted_write=nth, verdicts=verdicts, stream="torn-write")
+                res = loaders.real_load("line", o.disk)
+                if res[0] != "ok" or not is_deletion(s.orig_fields, strat.fields(res[1])) and o.disk != data:
+                    ctx.fail("not-a-deletion", f"{name}: Ctrl-C inside write #{nth} of the testcase file; after run() the file holds {o.disk!r}, "
+                             "which is not the original with atoms deleted", case)
+
+
 def search(ctx):
+    torn_writes(ctx)
     sweep(ctx, 7, 2, do_model=False)
     loaders_stream(ctx, 6, do_model=False)
 
@@ -118,6 +161,7 @@ def run(ctx) -> int:
     sweep(ctx, L, 2)
     ctx.exhaustive.append(f"every reducible/non-reducible layout up to length {L} x 3 strategies x {len(CFGS)} option settings (random verdicts)")
     loaders_stream(ctx, 12 if ctx.thorough else 8)
+    torn_writes(ctx)
     return common.decide(ctx, proof, RULE, search=search)
 
 
